@@ -128,10 +128,10 @@ func init() {
 		})
 		// part B: sharding product: n series x shards, distinct values
 		maxN := 12
-		procs := []int{2, 4, 6, 8}
+		procs := []int{1, 2, 3, 4, 6, 8}
 		if c.Thorough() {
 			maxN = 40
-			procs = []int{2, 4, 6, 8, 10, 12, 14, 16}
+			procs = []int{1, 2, 3, 4, 5, 6, 7, 8, 10, 12, 14, 16}
 		}
 		c.Rep.Bounds["series_counts"] = fmt.Sprintf("0..%d", maxN)
 		c.Rep.Bounds["gomaxprocs"] = procs
@@ -209,16 +209,18 @@ func c03Data(spacing string) []core.SeriesSpec {
 func init() {
 	check.Register("C03/enum", func(c *check.Ctx) {
 		funcs := rangeFuncs()
-		ranges := []string{"15s", "30s", "45s", "1m", "90s", "100ms", "2m30s", "1s500ms", "2500ms"}
+		// 7m over the 10 s spacing is a window of 42 samples (beyond the initial capacity of
+		// the per-series window buffers)
+		ranges := []string{"15s", "30s", "45s", "1m", "90s", "100ms", "2m30s", "1s500ms", "2500ms", "7m"}
 		steps := []int64{15000, 30000, 45000, 120000}
 		spacings := []string{"10s", "30s", "irregular"}
 		sels := []string{`a`, `a offset 30s`, `a @ 300.000`, `a offset -45s`, `a @ end()`}
-		procs := []int{2, 4}
+		procs := []int{1, 2, 4}
 		ns := []int{1, 2, 11, 21}
 		if c.Thorough() {
-			ranges = []string{"15s", "30s", "45s", "1m", "90s", "100ms", "2m30s", "1s", "7m", "1500ms"}
+			ranges = []string{"15s", "30s", "45s", "1m", "90s", "100ms", "2m30s", "1s", "7m", "1500ms", "11m"}
 			sels = append(sels, `a @ start()`, `a @ 300.000 offset 1m`)
-			procs = []int{2, 4, 6}
+			procs = []int{1, 2, 3, 4, 6}
 			ns = []int{1, 2, 9, 10, 11, 20, 21, 35}
 		}
 		c.Rep.Bounds["functions"] = funcs
@@ -525,25 +527,25 @@ func init() {
 			for li, lc := range lcfg {
 				for ri, rc := range rcfg {
 					// quick: presence patterns all-present, and one "disjoint steps" variant
-					patterns := [][2]int{{7, 7}}
+					// a pattern is the presence (bit per step) of {even left, odd left, even
+					// right, odd right} series
+					patterns := [][4]int{{7, 7, 7, 7}}
 					if (li+ri)%5 == 0 || c.Thorough() {
-						patterns = append(patterns, [2]int{3, 6}, [2]int{1, 7}, [2]int{5, 2})
+						patterns = append(patterns, [4]int{3, 6, 6, 3}, [4]int{1, 7, 7, 1}, [4]int{5, 2, 2, 5})
+					}
+					// one whole side absent at a step where the other side is complete (the
+					// reference does not look at a side when the other one is empty)
+					patterns = append(patterns, [4]int{7, 7, 6, 6}, [4]int{3, 3, 7, 7})
+					if (li+ri)%5 == 1 || c.Thorough() {
+						patterns = append(patterns, [4]int{7, 7, 1, 4}, [4]int{6, 3, 2, 2}, [4]int{5, 5, 7, 2})
 					}
 					for _, pat := range patterns {
 						var data []core.SeriesSpec
 						for i, l := range lc {
-							pp := pat[0]
-							if i%2 == 1 {
-								pp = pat[1]
-							}
-							data = append(data, mkSeries(l, i, pp))
+							data = append(data, mkSeries(l, i, pat[i%2]))
 						}
 						for i, l := range rc {
-							pp := pat[1]
-							if i%2 == 1 {
-								pp = pat[0]
-							}
-							data = append(data, mkSeries(l, 3+i, pp))
+							data = append(data, mkSeries(l, 3+i, pat[2+i%2]))
 						}
 						for _, op := range ops {
 							for _, m := range gen.Matchings {
@@ -615,6 +617,29 @@ func c06Data() []core.SeriesSpec {
 		b.S = append(b.S, p(int64(k)*30000, float64(k%5)))
 	}
 	out = append(out, b)
+	// vectors that are absent for a whole batch of the step grid (steps 10..19 of a
+	// window starting at 0; the lookback is shorter than the step) and come back later,
+	// and for a stretch straddling two batches
+	for i, holes := range [][2]int{{10, 19}, {13, 24}, {0, 9}, {20, 110}} {
+		g := core.SeriesSpec{L: fmt.Sprintf(`g{l="%d"}`, i)}
+		for k := 0; k < 110; k++ {
+			if k >= holes[0] && k <= holes[1] {
+				continue
+			}
+			g.S = append(g.S, p(int64(k)*30000, float64(k%13)-3))
+		}
+		out = append(out, g)
+	}
+	for _, le := range []string{"1", "10", "+Inf"} {
+		h := core.SeriesSpec{L: fmt.Sprintf(`gh_bucket{le="%s"}`, le)}
+		for k := 0; k < 110; k++ {
+			if k >= 10 && k <= 19 {
+				continue
+			}
+			h.S = append(h.S, p(int64(k)*30000, map[string]float64{"1": 2, "10": 5, "+Inf": 9}[le]*float64(k+1)))
+		}
+		out = append(out, h)
+	}
 	// histogram buckets
 	for _, le := range []string{"0.1", "1", "10", "+Inf"} {
 		h := core.SeriesSpec{L: fmt.Sprintf(`h_bucket{l="0",le="%s",z="1"}`, le)}
@@ -679,6 +704,16 @@ func init() {
 			`clamp(a, scalar(b{l="0"}), 3)`, `clamp_min(a, scalar(b{l="0"}))`, `clamp_max(a, time() / 100)`, `clamp(a, -1, time() / 1000)`} {
 			qs.Add(q, 1)
 		}
+		// arguments paired step by step with a vector that is absent for whole batches
+		for _, g := range []string{`g{l="0"}`, `g{l="1"}`, `g{l="2"}`, `g{l="3"}`, `g`, `g{l=~"0|3"}`} {
+			for _, q := range []string{`clamp_min(%s, time() / 100)`, `clamp_max(%s, scalar(b{l="0"}))`, `clamp(%s, scalar(b{l="0"}) - 2, time() / 300)`, `%s + scalar(b{l="0"})`,
+				`%s * time()`, `%s > bool time() / 300`, `vector(time()) + on () group_right %s`, `-%s`, `abs(%s)`, `scalar(%s)`, `scalar(%s) + time()`, `clamp_min(abs(%s), time() / 100)`,
+				`clamp_min(%s, scalar(%[1]s))`, `clamp_min(a, scalar(%s))`, `%s + on (l) group_left a`, `a + on (l) group_right %s`, `sum(%s) + time()`} {
+				qs.Add(fmt.Sprintf(q, g), 1)
+			}
+		}
+		qs.Add(`histogram_quantile(scalar(b{l="0"}) / 5, gh_bucket)`, 1)
+		qs.Add(`histogram_quantile(time() / 4000, gh_bucket)`, 1)
 		c.Rep.Transitions += qs.Transitions
 		c.Rep.Bounds["queries"] = len(qs.List)
 		runCases(c, "C06", func(emit func(*core.Case)) {
